@@ -8,7 +8,7 @@
    and unifies the two: a leaf and a non-leaf at the same position do not unify (unify_kid_conflict_inner). *)
 From Coq Require Import String List NArith ZArith PArith Bool Lia FMapPositive.
 From Sylt Require Import Syntax.Resolved Types.TyGraph Types.Tc Types.Ctx Types.TcInv Types.Reject Types.Mismatch
-  Types.ShapesDecl Types.CopyInst Types.Calls Types.CallsDecl Types.BlobFields.
+  Types.DeclOrder Types.ShapesDecl Types.CopyInst Types.Calls Types.CallsDecl Types.BlobFields.
 Import ListNotations.
 Local Open Scope tc_scope.
 
@@ -95,6 +95,18 @@ Section Rules.
     destruct (blob_established kinds g (afix f) (PA f) name vB sp tvars fields false ctx_new s u s' W H)
       as (nm & bsp & fs & args & Hh & _).
     eexists. split; [exact Hh|reflexivity].
+  Qed.
+
+  (* any declaration of the variable B does: a blob, an external blob, an enum *)
+  Lemma known_var_established_any d f s u s' :
+    decl_var d = Some vB -> wf s -> outer_statement kinds G (afix f) d ctx_new s = Ok (u, s') -> known_var vB s'.
+  Proof.
+    intros Hv W H. destruct d; try discriminate Hv; cbn [decl_var] in Hv; injection Hv as ->.
+    - pose proof (blob_established kinds g (afix f) (PA f) _ _ _ _ _ _ ctx_new s u s' W H) as X.
+      destruct external; [destruct X as (nm & bsp & fs & args & id & Hh)|destruct X as (nm & bsp & fs & args & Hh & _)];
+        eexists; split; [exact Hh|reflexivity|exact Hh|reflexivity].
+    - destruct (enum_established kinds g (afix f) (PA f) _ _ _ _ _ ctx_new s u s' W H) as (nm & bsp & fs & args & Hh & _).
+      eexists. split; [exact Hh|reflexivity].
   Qed.
 
   (* ---- a mention of B, once B is known, is a type that is neither unknown nor a leaf *)
@@ -308,32 +320,33 @@ Proof.
   - apply bind_cases; [apply P|assumption|]. intros u s1 H1 W1 E1. apply IH; [assumption|exact (JE _ _ W E1 HJ)].
 Qed.
 
-(* d0 is a type declaration somewhere in the program: the first pass of solve establishes Inv0.  Under Inv0 the statement
-   d1 establishes Inv1 in the second pass, and e is rejected under Inv1: a program that has e anywhere inside the value
-   of a top-level definition after d1 is not accepted -- wherever d0 stands. *)
-Theorem rejected_after_type_decl (Inv0 Inv1 : st -> Prop) (d0 d1 : stmt) (e : expr) :
-  is_type_decl d0 = true ->
+(* Some statement of the program declares the type variable v0; every declaration of v0 establishes Inv0: the first pass
+   of solve (the type declarations, DeclOrder.type_decl_order) establishes Inv0.  Under Inv0 the statement d1 establishes
+   Inv1 in the second pass, and e is rejected under Inv1: a program that has e anywhere inside the value of a top-level
+   definition after d1 is not accepted -- wherever the declaration of v0 stands. *)
+Theorem rejected_after_type_decl (Inv0 Inv1 : st -> Prop) (v0 : N) (d1 : stmt) (e : expr) :
   (forall s s', wf s -> ext s s' -> Inv0 s -> Inv0 s') ->
   (forall s s', wf s -> ext s s' -> Inv1 s -> Inv1 s') ->
-  (forall kinds g f s u s', wf s -> outer_statement kinds (gfix g) (afix kinds (gfix g) f) d0 ctx_new s = Ok (u, s') -> Inv0 s') ->
+  (forall d kinds g f s u s', decl_var d = Some v0 -> wf s ->
+     outer_statement kinds (gfix g) (afix kinds (gfix g) f) d ctx_new s = Ok (u, s') -> Inv0 s') ->
   (forall kinds g f s u s', wf s -> Inv0 s -> outer_statement kinds (gfix g) (afix kinds (gfix g) f) d1 ctx_new s = Ok (u, s') -> Inv1 s') ->
   (forall kinds g f ctx s, wf s /\ Inv1 s -> notok (r_expr (afix kinds (gfix g) f) e ctx s)) ->
   forall pre mid post dname dvar dkind dty (C : ectx) dsp sp0 fuel vars,
     let stmts := pre ++ d1 :: mid ++ SDefinition dname dvar dkind dty (plug_e e (SStatementExpression e sp0) C) dsp :: post in
-    In d0 stmts ->
+    (exists d0, In d0 stmts /\ decl_var d0 = Some v0) ->
     typecheck fuel (mkResolved vars stmts) <> Ok tt.
 Proof.
-  intros T0 IE0 IE1 Hd0 Hd1 He pre mid post dname dvar dkind dty C dsp sp0 fuel vars stmts Hin.
+  intros IE0 IE1 Hd0 Hd1 He pre mid post dname dvar dkind dty C dsp sp0 fuel vars stmts (d0 & Hin & Hv0).
   apply typecheck_notok. intros s W. unfold solve.
   set (kinds := kinds_of vars 1 (PositiveMap.empty varkind)).
   pose proof (gfix_pres fuel) as PG. pose proof (afix_pres kinds (gfix fuel) PG fuel) as PA.
   assert (PO : forall y, pres (outer_statement kinds (gfix fuel) (afix kinds (gfix fuel) fuel) y ctx_new))
     by (intros y; now apply pres_outer_statement).
   apply bind_cases; [apply pres_iterM; exact PO|assumption|]. intros u1 s1 H1 W1 E1.
+  destruct (type_decl_order_covers stmts d0 v0 Hin Hv0) as (d' & Hin' & Hv').
   assert (I0 : Inv0 s1).
-  { apply (iterM_establishes _ Inv0 d0 PO IE0 (fun s0 u0 s0' W0 H0 => Hd0 _ _ _ _ _ _ W0 H0) (filter is_type_decl stmts)) with (s := s) (u := u1);
-      [|assumption|exact H1].
-    apply filter_In. split; assumption. }
+  { apply (iterM_establishes _ Inv0 d' PO IE0 (fun s0 u0 s0' W0 H0 => Hd0 d' _ _ _ _ _ _ Hv' W0 H0) (type_decl_order stmts)) with (s := s) (u := u1);
+      assumption. }
   apply bind_notok_l. unfold stmts.
   apply (iterM_notok_after_under _ Inv0 Inv1); try assumption.
   - intros s0 u s2 W0 J0 H0. exact (Hd1 _ _ _ _ _ _ W0 J0 H0).
@@ -366,11 +379,11 @@ Theorem C03_forward_blob_mention_rejected
     typecheck fuel (mkResolved vars stmts) <> Ok tt.
 Proof.
   intros Hin Ht Ll Rl dA dB e.
-  apply (rejected_after_type_decl (known_var vB) (field_inner vA k) dB dA e).
-  - reflexivity.
+  intros pre mid post dname dvar dkind dty C dsp sp0 fuel vars stmts HB.
+  apply (rejected_after_type_decl (known_var vB) (field_inner vA k) vB dA e); [| | | | |exists dB; split; [exact HB|reflexivity]].
   - intros s s' W E. now apply known_var_ext.
   - intros s s' W E. now apply field_inner_ext.
-  - intros kinds g f s u s' W H. exact (known_var_established kinds g vB nameB spB tvarsB fieldsB f s u s' W H).
+  - intros d kinds g f s u s' Hv W H. exact (known_var_established_any kinds g vB d f s u s' Hv W H).
   - intros kinds g f s u s' W KV H. exact (field_inner_established kinds g vB vA k nameA spA tvarsA fieldsA f s u s' Hin Ht W KV H).
   - intros kinds g f ctx s [W FI]. exact (rej_blob_field_lit_inner kinds g vA k pre0 lit post0 self isp ta f ctx s W FI Ll Rl).
 Qed.
@@ -546,11 +559,11 @@ Theorem C03_forward_enum_mention_rejected
     typecheck fuel (mkResolved vars stmts) <> Ok tt.
 Proof.
   intros Hin Ht Ll Rl dE dB e.
-  apply (rejected_after_type_decl (known_var vB) (variant_inner vE v) dB dE e).
-  - reflexivity.
+  intros pre mid post dname dvar dkind dty C dsp sp0 fuel vars stmts HB.
+  apply (rejected_after_type_decl (known_var vB) (variant_inner vE v) vB dE e); [| | | | |exists dB; split; [exact HB|reflexivity]].
   - intros s s' W E. now apply known_var_ext.
   - intros s s' W E. now apply variant_inner_ext.
-  - intros kinds g f s u s' W H. exact (known_var_established kinds g vB nameB spB tvarsB fieldsB f s u s' W H).
+  - intros d kinds g f s u s' Hv W H. exact (known_var_established_any kinds g vB d f s u s' Hv W H).
   - intros kinds g f s u s' W KV H. exact (variant_inner_established kinds g vB vE v nameE spE tvarsE variants f s u s' Hin Ht W KV H).
   - intros kinds g f ctx s [W VI]. exact (rej_variant_inner kinds g vE v lit vsp ta f ctx s W VI Ll Rl).
 Qed.
